@@ -153,6 +153,14 @@ TWINS = [
     ('rt2tr-translation-row', 'C03', 'base/transformsNd.py', '        T = np.eye(4)\n        T[:3, :3] = R\n        T[:3, 3] = t', '        T = np.eye(4)\n        T[:3, :3] = R\n        T[3, :3] = t', 'R16', 'rt2tr'),
     ('tr2rt-translation-slot', 'C03', 'base/transformsNd.py', '        t = T[:3, 3]', '        t = T[:3, 2]', 'R16', 'tr2rt'),
     ('mul-seq-missing-transpose', 'C06', 'super_pose.py', 'return np.array([x.A @ y for x, y in zip(left, right.T)]).T', 'return np.array([x.A @ y for x, y in zip(left, right.T)])', 'R16', 'SMPose.__mul__'),
+    ('getvector-keeps-array-dtype', 'C15', 'base/argcheck.py', "        if v.dtype.kind == 'O':\n            dt = 'O'", "        if v.dtype.kind in 'Oiuf':\n            dt = v.dtype", 'R10g', 'getvector'),
+    ('getvector-fast-path-before-length-test', 'C15', 'base/argcheck.py', "    elif isinstance(v, np.ndarray):\n        s = v.shape", "    elif isinstance(v, np.ndarray):\n        if v.ndim == 1 and out == 'array' and v.dtype == dt:\n            return v.copy()\n        s = v.shape", 'R10g', 'getvector'),
+    ('getvector-dtype-default-none', 'C19', 'base/argcheck.py', "def getvector(v, dim=None, out='array', dtype=np.float64):", "def getvector(v, dim=None, out='array', dtype=None):", 'R10g', 'getvector'),
+    ('theta-many-values-unscaled', 'C05', 'pose2d.py', '            return [conv * math.atan2(x.A[1, 0], x.A[0, 0]) for x in self]', '            return [math.atan2(x.A[1, 0], x.A[0, 0]) for x in self]', 'R10x', 'SO2.theta'),
+    ('pow-zero-one-identity', 'C09', 'super_pose.py', "        assert type(n) is int, 'exponent must be an int'", "        assert type(n) is int, 'exponent must be an int'\n        if n == 0:\n            return self.__class__()", 'R8', 'SMPose.__pow__'),
+    ('interp-fixes-shortest', 'C11', 'super_pose.py', 'return self.__class__([base.trinterp(start, self.A, s=_s) for _s in s])', 'return self.__class__([base.trinterp(start, self.A, s=_s, shortest=True) for _s in s])', 'R14', 'SMPose.interp'),
+    ('iszerovec-squared-norm', 'C14', 'base/vectors.py', '    return np.linalg.norm(v) < tol * _eps\n\ndef iszero', '    return np.dot(v, v) < tol * _eps\n\ndef iszero', 'R4', 'iszerovec'),
+    ('isprismatic-direct-slice', 'C18', 'twist.py', '            return [base.iszerovec(x.w) for x in self]', '            return [base.iszerovec(S[-self.N:]) for S in self.data]', 'R8', 'SMTwist.isprismatic'),
     ('cross-entry', 'C13', 'base/vectors.py', '        u[2] * v[0] - u[0] * v[2],', '        u[0] * v[2] - u[2] * v[0],', 'R16', 'cross'),
     ('tr2jac-notranspose', 'C13', 'base/transforms3d.py', '        return np.block([[R.T, Z], [Z, R.T]])', '        return np.block([[R, Z], [Z, R]])', 'R16', 'tr2jac'),
     # ---- C14
